@@ -133,7 +133,7 @@ func clComparatorRoles(c *Ctx, onlyFamilies map[string]bool) {
 		if pk == modPath+"/examples" {
 			continue
 		}
-		for _, in := range p.Info(fn).Instrs {
+		for _, in := range p.Own(fn) {
 			cc := callOf(in)
 			if cc == nil {
 				continue
@@ -295,7 +295,7 @@ func clComparatorWiring(c *Ctx) {
 		ok := len(sts) == 1
 		if ok {
 			call, isCall := strip(sts[0].Val).(*ssa.Call)
-			ok = isCall && p.CallsAny(call, ctor) && strip(call.Call.Args[0]) == ssa.Value(fn.Params[1])
+			ok = isCall && p.CallsAny(call, ctor) && strip(call.Call.Args[0]) == strip(fn.Params[1])
 		}
 		var at ssa.Instruction
 		if len(sts) > 0 {
@@ -306,7 +306,7 @@ func clComparatorWiring(c *Ctx) {
 	// nobody else rewires them
 	for fv := range want {
 		for _, w := range p.fieldWrites(fv) {
-			if w.fn != fn {
+			if !p.sameRoot(w.fn, fn) {
 				c.Check(false, w.fn, w.in, "write of Config."+fv.Name()+" outside SetKeyComparator", "a comparator slot is replaced separately from its siblings: the three orders no longer derive from one key comparator")
 			}
 		}
